@@ -5,6 +5,7 @@ import (
 	"fmt"
 	mrand "math/rand"
 	"strings"
+	"time"
 
 	"verifharness/mon"
 	"verifharness/world"
@@ -349,6 +350,22 @@ func c03(x *mon.Ctx) {
 				t2.SerialNumber = base.PKI.TcbSign.Cert.SerialNumber
 				selfs := world.Issue(t2, nil, world.NewKey())
 				resigned("signer-self-signed-same-serial", selfs, base.PKI.Root, "reject")
+			}
+			// the same forgeries with a signer certificate that is outside its validity period at the verification
+			// times (a time error from path validation must not be mistaken for "somebody else checks validity")
+			for _, wv := range []struct {
+				name string
+				w    world.Window
+			}{
+				{"not-yet-valid", world.Window{NotBefore: world.Epoch.Add(60 * world.Day), NotAfter: world.Far.NotAfter}},
+				{"valid-from-1s-after", world.Window{NotBefore: base.Times[[]int{world.TTcbInfo, world.TQeIdentity}[indexOf(d)]].Add(time.Second), NotAfter: world.Far.NotAfter}},
+				{"expired", world.Window{NotBefore: world.Far.NotBefore, NotAfter: world.Epoch.Add(-60 * world.Day)}},
+			} {
+				resigned("signer-from-foreign-pki-"+wv.name, world.Issue(world.TcbSignTemplate(wv.w), other.Root, world.NewKey()), other.Root, "reject")
+				resigned("signer-self-signed-"+wv.name, world.Issue(world.TcbSignTemplate(wv.w), nil, world.NewKey()), base.PKI.Root, "reject")
+				fr := world.Issue(world.RootTemplate(wv.w), nil, world.NewKey())
+				resigned("signer-under-foreign-root-"+wv.name, world.Issue(world.TcbSignTemplate(world.Far), fr, world.NewKey()), fr, "reject")
+				resigned("signer-genuine-but-"+wv.name, world.Issue(world.TcbSignTemplate(wv.w), base.PKI.Root, world.NewKey()), base.PKI.Root, "reject")
 			}
 			resigned("signer-foreign-root-own", other.TcbSign, base.PKI.Root, "reject")
 			resigned("signer-own-root-foreign", base.PKI.TcbSign, other.Root, "reject")
